@@ -77,8 +77,18 @@ Ltac cond_step :=
   | |- context[if b2z (?a <? ?b) =? 0 then _ else _] => destruct (Z.ltb_spec a b); cbn [b2z Z.eqb]; try (exfalso; lia)
   | |- context[if b2z (negb (?a =? ?b)) =? 0 then _ else _] => destruct (Z.eqb_spec a b); cbn [b2z Z.eqb negb]; try (exfalso; lia)
   end.
+(* a condition of any shape (negations, early-return forms): split on the innermost comparison *)
+Ltac cond_any :=
+  match goal with
+  | |- context[if ?c =? 0 then _ else _] =>
+      match c with
+      | context[(?a <? ?b)] => destruct (Z.ltb_spec a b); cbn [b2z Z.eqb negb]; try (exfalso; lia)
+      | context[(?a <=? ?b)] => destruct (Z.leb_spec a b); cbn [b2z Z.eqb negb]; try (exfalso; lia)
+      | context[(?a =? ?b)] => lazymatch a with context[b2z] => fail | _ => destruct (Z.eqb_spec a b); cbn [b2z Z.eqb negb]; try (exfalso; lia) end
+      end
+  end.
 Ltac tl_exec :=
-  repeat (sym_exec || cond_step || (progress rewrite ?Nat2Z.id) || (rewrite nth_map_get by lia) || (rewrite set_z_zn' by (rewrite ?lset_length; lia)) || (rewrite nth_z_zn by (rewrite ?lset_length; lia))).
+  repeat (sym_exec || cond_any || cond_step || (progress rewrite ?Nat2Z.id) || (rewrite nth_map_get by lia) || (rewrite set_z_zn' by (rewrite ?lset_length; lia)) || (rewrite nth_z_zn by (rewrite ?lset_length; lia))).
 
 Theorem src_TaskList_remove {P} cap (t : tl P) i : remove_pre cap t i ->
   result (run leaf_ftable (tl_consts cap) TaskListT_void_5__remove [Z.of_nat i] (tl_fields t) (tl_arrays t))
